@@ -19,12 +19,12 @@ def cases(draw, tier):
     def hold(depth):
         body = []
         for _ in range(draw(st.integers(0, 3))):
-            r = draw(st.integers(0, 9))
+            r = draw(st.integers(0, 11))
             if r < 4:
                 body.append(sl())
             elif r < 6:
                 body.append({'op': 'instant'})
-            elif r < 8 and not (r == 8):
+            elif r < 8:
                 body.append({'op': 'avail', 'i': 0})
             elif r == 9 and depth == 1:
                 # while holding the lock: a short-lived scope whose child also asks for the lock and is
